@@ -683,6 +683,42 @@ def c17_periodic_run(ctx, binp):
     return [dict(kind="predict", settings=settings, fps=fps, model="lepton3", model_events=ev, result=last, scen=scen, ntest=1, expected_motion={})]
 
 
+def c17_window_triggers_run(ctx, binp):
+    """Beyond the listed request path: the windowed branch of snapshotRecordingTriggers.  With a recording window that is
+    open when the daemon starts it makes a 'power on' test recording one minute after the first camera connection and an
+    'end of window' one two minutes before the window closes.  The window is chosen to close 200..260 s after the start,
+    so both fall into one slow stream; SystemTrace.tla expects exactly two extra files of 21 consecutive frames."""
+    import time
+    fps = 3
+    now = time.time()
+    end = (int(now + 200) // 60 + 1) * 60                      # first minute boundary at least 200 s away
+    hm = lambda t: time.strftime("%H:%M", time.localtime(t))
+    settings = dict(min=1, max=5, preview=1, const=False, throttle=False, motion=dict(FIXED_MOTION, **{"trigger-frames": 2}),
+                    device="dev", deviceid=7, window=(hm(now - 3600), hm(end)))
+    w, h = 4, 3
+    fsize = 640 + 2 * w * h
+    ev = [dict(ev="conn", N=settings["preview"] * fps + 2, TrigF=2, MinF=settings["min"] * fps, MaxF=settings["max"] * fps, ConstOn=False,
+               firstid=1, newrun=True, WinOpen=True)]
+    nframes = int((end - 120 + 15 - now) / 0.25) + 8
+    payload, pace, hot = bytearray(), [], False
+    for fid in range(1, nframes + 1):
+        motion = (fid % 40) in (5, 6, 7, 8)
+        if motion:
+            hot = not hot
+        payload += lepton_frame(w, h, fid, 300 if hot else 200, 60000 + fid * 100)
+        pace.append(len(payload))
+        ev.append(dict(ev="frame", id=fid, motion=motion))
+    conn = dict(header=dict(ResX=w, ResY=h, FPS=fps, FrameSize=fsize, Model="lepton3", Brand="flir", CameraSerial=2, Firmware="1.0.0"),
+                payload=base64.b64encode(bytes(payload)).decode(), cuts=[], settle_ms=60, pace_at=pace, pace_ms=250)
+    scen = dict(config=toml(settings), prefiles=[], conns=[conn])
+    try:
+        evs = run_e2e(ctx, binp, scen, "c17_window_triggers")
+    except DaemonCrash as dc:
+        return [dict(kind="crash", settings=settings, fps=fps, model="lepton3", msg=dc.msg, result=dict(files=[], constant=[]))]
+    last = [e for e in evs if e["ev"] == "e2e-conn-done"][-1]
+    return [dict(kind="predict", settings=settings, fps=fps, model="lepton3", model_events=ev, result=last, scen=scen, ntest=2, expected_motion={})]
+
+
 def prune_runs(ctx, binp):
     """Beyond the listed properties (Prune.tla): deleteExcessRecordings on a 4 MB tmpfs mounted for the occasion.
     Returns (events, note); events is None when no file system can be mounted here."""
